@@ -71,17 +71,14 @@ def direct(rep, t, rnd):
     rep.add_traces(agg, len(traces))
     rep.evaluations += len(evs)
     rep.sample({"direct_call": evs[0]})
-    for bad in agg["bad"]:
-        tr = traces[bad["tid"]]
-        if bad["incon"]:
-            rep.inconclusive += 1
-        if bad["fails"]:
-            single = vlib.validate_traces("TrSearch", [[e] for e in tr], shards=1)
-            for b2 in single["bad"]:
-                if b2["fails"]:
-                    e = tr[b2["tid"]]
-                    rep.violation("/".join(b2["fails"]), {"call": e, "clauses": b2["fails"],
-                                  "reproduce": f"cm_colors.core.optimisation.{e['fn']}: text={e['in']} bg={e['bg']} (tolerance/schedule, target, large)={e['args']}"})
+    rep.inconclusive += sum(1 for b in agg["bad"] if b["incon"])
+    hits, more = vlib.pinpoint("TrSearch", traces, agg)
+    for tid, j, fl in hits:
+        e = traces[tid][j]
+        rep.violation("/".join(fl), {"call": e, "clauses": fl,
+                      "reproduce": f"cm_colors.core.optimisation.{e['fn']}: text={e['in']} bg={e['bg']} (tolerance/schedule, target, large)={e['args']}"})
+    if more:
+        print(f"NOTE: {more} further failing batches not itemised")
 
 
 if __name__ == "__main__":
